@@ -160,7 +160,13 @@ class BaseConnection(object):
 
     def closed(self) -> bool:
         '''Return whether the connection is closed.'''
-        return not self.writer or not self.reader or self.reader.at_eof()
+        if not self.writer or not self.reader or self.reader.at_eof():
+            return True
+
+        # A connection reset by the peer is not at EOF: the reader holds
+        # the error and the transport is closed.
+        return self.reader.exception() is not None \
+            or self.writer.transport.is_closing()
 
     def has_buffered_data(self) -> bool:
         '''Return whether received data is waiting to be read.'''
